@@ -1,35 +1,58 @@
 #!/usr/bin/env python3
-"""refcheck.py <patch.diff> [props…] — apply a behaviour-preserving refactoring to /repo, run the checks (all 20 by
-default, quick tier), undo it; every VIOLATION line is a false alarm of the machinery."""
+"""refcheck.py <patch.diff> [props…] — run the checks (all 20 by default, quick tier) against a behaviour-preserving
+refactoring of google/wire; every VIOLATION line is a false alarm of the machinery.
+
+Nothing is done in /repo or /verif: the patch is applied in a scratch worktree of /repo's HEAD and the checks run from a
+snapshot copy of /verif (VERIF_HOME / VERIF_REPO), so that this can run next to other work.  Both are removed afterwards."""
 import json
+import os
+import shutil
 import subprocess
 import sys
+import tempfile
 import time
 
 
-def sh(cmd):
-    return subprocess.run(cmd, shell=True, capture_output=True, text=True)
+def sh(cmd, **kw):
+    return subprocess.run(cmd, shell=True, capture_output=True, text=True, **kw)
 
 
 def main():
-    patch = sys.argv[1]
+    patch = os.path.abspath(sys.argv[1])
     props = sys.argv[2:] or ["C%02d" % i for i in range(1, 21)]
-    assert sh("git -C /repo status --porcelain").stdout.strip() == "", "/repo is not clean"
-    r = sh("git -C /repo apply %s" % patch)
-    if r.returncode != 0:
-        print("patch does not apply:", r.stderr)
-        return 2
+    base = tempfile.mkdtemp(prefix="refcheck.")
+    wt, home = base + "/repo", base + "/verif"
     res = {}
     try:
+        # the refactorings under /verif/refactors were written against this commit of /repo
+        r = sh("git -C /repo worktree add -q --detach %s %s" % (wt, os.environ.get("REF_BASE", "3397c34")))
+        if r.returncode != 0:
+            print("cannot create worktree:", r.stderr)
+            return 2
+        r = sh("git -C %s apply %s" % (wt, patch))
+        if r.returncode != 0:
+            print("patch does not apply:", r.stderr)
+            return 2
+        sh("cp -r /verif %s" % home)
+        shutil.rmtree(home + "/replays", ignore_errors=True)
+        env = dict(os.environ, VERIF_HOME=home, VERIF_REPO=wt)
         for p in props:
             t = time.time()
-            r = sh("cd /verif && ./check %s --tier quick" % p)
+            r = subprocess.run([home + "/check", p, "--tier", "quick"], capture_output=True, text=True, env=env, cwd=home)
             lines = [l for l in r.stdout.split("\n") if l.startswith("VIOLATION")]
-            res[p] = {"exit": r.returncode, "violations": lines[:3], "wall_s": round(time.time() - t, 1)}
-            print(p, "exit", r.returncode, lines[:2], flush=True)
+            why = []
+            for l in lines[:2]:
+                try:
+                    d = json.load(open(l.split("replay=")[1].split()[0]))
+                    why.append(str({k: d.get(k) for k in ("kind", "what", "why", "theorem", "first") if d.get(k)})[:600])
+                except Exception as e:
+                    why.append(str(e))
+            res[p] = {"exit": r.returncode, "violations": lines[:3], "why": why, "wall_s": round(time.time() - t, 1)}
+            print(p, "exit", r.returncode, lines[:2], why[:1], flush=True)
     finally:
-        sh("git -C /repo checkout -- .")
-        sh("git -C /repo clean -fdq -- internal cmd")
+        sh("git -C /repo worktree remove --force %s" % wt)
+        shutil.rmtree(base, ignore_errors=True)
+        sh("git -C /repo worktree prune")
     json.dump(res, open(patch + ".refcheck.json", "w"), indent=1)
     return 0
 
